@@ -67,12 +67,10 @@ fn bytes_eq(b: &Bytes, plan: &Plan, from: usize, to: usize) -> bool {
 }
 
 /// C06: k-th recv() returns exactly the k-th delimiter-terminated message, as soon as the
-/// chunk carrying its last delimiter byte has been read, for every segmentation.
-#[kani::proof]
-#[kani::unwind(18)]
-#[kani::stub(bytes::BytesMut::reserve_inner, no_grow)]
-fn c06_junos_local_segmentation() {
-    let plan = any_plan(true);
+/// chunk carrying its last delimiter byte has been read, for every segmentation within the
+/// given bounds.
+fn c06_junos_local_body(two: bool, max_payload: usize, max_chunks: usize) {
+    let plan = any_plan_bounded(two, max_payload, max_chunks);
     let _ = script_from(&plan, None);
     let mut rx = receiver();
     let e1 = first_marker_end(&plan, 0).unwrap();
@@ -86,6 +84,12 @@ fn c06_junos_local_segmentation() {
         Some(Err(_)) => assert!(false, "C06 junos_local: error on a well-formed stream"),
         None => assert!(false, "C06 junos_local: first message not delivered although its delimiter has arrived"),
     }
+    if !two {
+        kani::cover!(plan.n == max_chunks && plan.cut[0] < plan.m1 && plan.cut[0] + 6 > plan.m1, "a cut inside the delimiter");
+        std::mem::forget(r1);
+        std::mem::forget(rx);
+        return;
+    }
     let r2 = model::run_bounded(rx.recv(), 1);
     match &r2 {
         Some(Ok(msg)) => {
@@ -95,11 +99,37 @@ fn c06_junos_local_segmentation() {
         Some(Err(_)) => assert!(false, "C06 junos_local: error on a well-formed stream (2nd)"),
         None => assert!(false, "C06 junos_local: second message not delivered although its delimiter has arrived"),
     }
-    kani::cover!(plan.n == 4 && plan.cut[0] < plan.m1 && plan.cut[0] + 6 > plan.m1, "a cut inside the first delimiter");
+    kani::cover!(plan.n == max_chunks && plan.m1 < plan.total, "two messages, maximal number of chunks");
     kani::cover!(plan.n == 1, "both messages in one chunk");
     std::mem::forget(r1);
     std::mem::forget(r2);
     std::mem::forget(rx);
+}
+
+/// C06 (junos_local), one message, payload <= 2 bytes, 1..=3 chunks: every cut position, in
+/// particular the five inside the delimiter.
+#[kani::proof]
+#[kani::unwind(18)]
+#[kani::stub(bytes::BytesMut::reserve_inner, no_grow)]
+fn c06_junos_local_one_message_cuts() {
+    c06_junos_local_body(false, 2, 3)
+}
+
+/// C06 (junos_local), two messages, payload <= 1 byte, 1..=2 chunks: several messages per chunk,
+/// one cut anywhere.
+#[kani::proof]
+#[kani::unwind(18)]
+#[kani::stub(bytes::BytesMut::reserve_inner, no_grow)]
+fn c06_junos_local_two_messages() {
+    c06_junos_local_body(true, 1, 2)
+}
+
+/// C06 (junos_local), thorough: two messages, payload <= 2 bytes, 1..=4 chunks.
+#[kani::proof]
+#[kani::unwind(18)]
+#[kani::stub(bytes::BytesMut::reserve_inner, no_grow)]
+fn c06_junos_local_segmentation() {
+    c06_junos_local_body(true, 2, 4)
 }
 
 /// C07: after the peer closed (cleanly or abruptly) recv() completes with an error within a
